@@ -189,6 +189,7 @@ def programs(draw, max_ops=6, allow_batch=True, allow_sink=True, scalar_start=No
   types = {} if scalar else dict(BASE_TYPES)
   okeys = []            # mirror of TreeTransform.output_keys (names; 'SKIP'/'PATH' markers make batch non-generatable)
   fresh = list(NEW_NAMES)
+  used_nested = set()
   ops = []
   nops = draw(st.integers(1, max_ops))
   batched = False
@@ -213,6 +214,7 @@ def programs(draw, max_ops=6, allow_batch=True, allow_sink=True, scalar_start=No
       if out == 'SELF' and in_ == 'DEFAULT' and draw(st.booleans()):
         out = 'DEFAULT'
       ops.append({'op': 'apply', 'fn': f, 'in': in_, 'out': out})
+      used_nested.clear()
       fresh = [n for n in fresh if n not in newt]
       types = dict(newt)
       if out in ('SELF', 'DEFAULT'):
@@ -227,6 +229,17 @@ def programs(draw, max_ops=6, allow_batch=True, allow_sink=True, scalar_start=No
         out, newt, ok = n, {n: 'int'}, [n]
       else:
         out, newt, ok, _ = draw(_place(rt, fresh, allow_self=False))
+      # outputs written *into* containers that already exist in the record (nested dict / list element): the copy-on-write
+      # along the path is what keeps the caller's record intact
+      cands = [c for c in ({'K': ['n', 'z' + fresh[0]]}, {'K': ['n', 'y', ['I', 1]]}, {'K': ['n', 'x']}) if repr(c) not in used_nested]
+      if types.get('n') == 'nest' and cands and draw(st.integers(0, 3)) == 0:
+        nested = draw(st.sampled_from(cands))
+        used_nested.add(repr(nested))      # assigning the same key twice is a documented build-time error
+        if rt in ('int', 'bool'):
+          out, newt, ok = nested, {}, ['PATH']
+        elif rt == 'pair':
+          first = fresh[0]
+          out, newt, ok = draw(st.sampled_from([{'T': [first, nested]}, {'T': [nested, first]}])), {first: 'int'}, [first, 'PATH']
       ops.append({'op': 'assign', 'fn': f, 'in': in_, 'keys': out})
       fresh = [n for n in fresh if n not in newt]
       types.update(newt)
